@@ -267,6 +267,38 @@ class Schema:
                 return False
         return True
 
+    def violated_constraints(self, S):
+        """For a set S that is closed under supertypes: the members whose own constraint S violates - an ABSTRACT member
+        without any subtype in S, or a member whose supertype expression is not satisfied by the subtypes present."""
+        S = set(x.lower() for x in S)
+
+        def touched(x):
+            if isinstance(x, str):
+                return x.lower() in S
+            return any(touched(a) for a in x["args"])
+
+        def sat(x):
+            if isinstance(x, str):
+                return x.lower() in S
+            op = x["op"]
+            if op == "ONEOF":
+                t = [a for a in x["args"] if touched(a)]
+                return len(t) == 1 and sat(t[0])
+            if op == "AND":
+                return all(sat(a) for a in x["args"])
+            t = [a for a in x["args"] if touched(a)]
+            return len(t) >= 1 and all(sat(a) for a in t)
+        out = []
+        for e in sorted(S):
+            subs_in = [s for s in self.subs[e] if s in S]
+            if not subs_in:
+                if self.ent(e)["abstract"]:
+                    out.append(e)
+                continue
+            if not sat(self.full_superexpr(e)):
+                out.append(e)
+        return out
+
     def leaves_of(self, S):
         S = set(S)
         return [e for e in S if not any(c in S for c in self.subs[e])]
